@@ -5,6 +5,7 @@ import Proofs.RegClassify
 import Proofs.Accounting
 import Props.C01
 import Props.C09
+import Props.C11
 /-!
 C10 — property theorems.
 
@@ -174,9 +175,12 @@ theorem readAll_text (items : List (RegDef × List Val)) (ws : List Data)
     · simp only [readAllText, hn, hl, hread, Except.toOption, ho, textOf, hmatch, hp]
     · simp only [Spec.C10.holds.go, hshape, hn, beq_self_eq_true, Bool.true_and, Bool.and_true, hgo]
 
-/-- **C10, positional text storage, for every stream of registers.** -/
-theorem text_positional (items : List (RegDef × List Val))
-    (h : ∀ item ∈ items, ItemText item.1 item.2) :
+/-- the stream argument, for any registers each of which writes one recognised,
+re-readable line -/
+theorem text_stream (items : List (RegDef × List Val))
+    (h : ∀ item ∈ items, ∃ out, item.1.writeData .text item.2 = .ok (some (.str (out ++ ['\n']))) ∧ ¬ '\n' ∈ out ∧
+      shapeOk item.1 .text (.str (out ++ ['\n'])) = true ∧ item.1.matchesText (out ++ ['\n']) = true ∧
+      item.1.readDataText (out ++ ['\n']) = .ok (canonData item.1 .text item.2 (.str (out ++ ['\n'])))) :
     ∃ obs, run .text items = some obs ∧ Spec.C10.holds .text items obs = true := by
   -- phase 1: every register is written
   have hws : ∃ ws, writeAll .text items = some ws ∧ All2 WrittenText items ws := by
@@ -184,7 +188,7 @@ theorem text_positional (items : List (RegDef × List Val))
     | nil => exact ⟨[], rfl, .nil⟩
     | cons item items ih =>
       obtain ⟨ws, h1, h2⟩ := ih (fun it hit => h it (by simp [hit]))
-      obtain ⟨out, hw, hnl, hshape, hmatch, hread⟩ := item_text item.1 item.2 (h item (by simp))
+      obtain ⟨out, hw, hnl, hshape, hmatch, hread⟩ := h item (by simp)
       refine ⟨.str (out ++ ['\n']) :: ws, ?_, .cons ⟨out, rfl, hnl, hshape, hmatch, hread⟩ h2⟩
       simp only [writeAll, List.mapM_cons, hw, bind, Option.bind] at h1 ⊢
       simp only [h1, pure]
@@ -193,6 +197,12 @@ theorem text_positional (items : List (RegDef × List Val))
   refine ⟨obs, by simp only [run, h1]; exact h3, ?_⟩
   simp only [Spec.C10.holds, h4, beq_self_eq_true, Bool.true_and]
   exact h5
+
+/-- **C10, positional text storage, for every stream of registers.** -/
+theorem text_positional (items : List (RegDef × List Val))
+    (h : ∀ item ∈ items, ItemText item.1 item.2) :
+    ∃ obs, run .text items = some obs ∧ Spec.C10.holds .text items obs = true :=
+  text_stream items (fun item hi => item_text item.1 item.2 (h item hi))
 
 end Props.C10
 
@@ -350,5 +360,170 @@ theorem binary (items : List (RegDef × List Val)) (h : ∀ item ∈ items, Item
   refine ⟨obs, by simp only [run, h1]; exact h3, ?_⟩
   simp only [Spec.C10.holds, h4, beq_self_eq_true, Bool.true_and]
   exact h5
+
+end Props.C10
+
+/-! ### delimited text storage -/
+namespace Props.C10
+open Cfi Cfi.Text Spec.C10 Props.C11
+
+structure ItemDelim (r : RegDef) (data : List Val) (d : List Char) (rs : List (List Char)) : Prop where
+  hdel : r.delimiter = .str d
+  hd : d ≠ []
+  hnld : ¬ '\n' ∈ d
+  hid : r.ident.length ≤ r.digits
+  hidne : r.ident ≠ []
+  hidhead : ∀ x, r.ident.head? = some x → isStripWs x = false
+  hidlast : ∀ x, r.ident.getLast? = some x → isStripWs x = false
+  hidfree : ∀ c ∈ r.ident, ¬ c ∈ d
+  hidnl : ¬ '\n' ∈ r.ident
+  hlen : r.fields.length = data.length
+  hne : RegDef.isEmpty data = false
+  hrl : rs.length = r.fields.length
+  hlaw : ∀ i (hi : i < r.fields.length), ∃ t, rs[i]? = some t ∧ TokLaw r.fields[i] (data[i]'(hlen ▸ hi)) t
+  hfree : ∀ t ∈ rs, ∀ c ∈ strip t, ¬ c ∈ d
+  htnl : ∀ t ∈ rs, ¬ '\n' ∈ strip t
+
+theorem strip_ident (r : RegDef) (h1 : ∀ x, r.ident.head? = some x → isStripWs x = false)
+    (h2 : ∀ x, r.ident.getLast? = some x → isStripWs x = false) : strip r.ident = r.ident := by
+  have := stripBy_pad_left (p := isStripWs) 0 ' ' r.ident isStripWs_blank h1 h2
+  simpa [strip] using this
+
+/-- **One register in delimited text storage.** -/
+theorem item_delim (r : RegDef) (data : List Val) (d : List Char) (rs : List (List Char))
+    (h : ItemDelim r data d rs) :
+    ∃ out, r.writeData .text data = .ok (some (.str (out ++ ['\n']))) ∧ ¬ '\n' ∈ out ∧
+      shapeOk r .text (.str (out ++ ['\n'])) = true ∧ r.matchesText (out ++ ['\n']) = true ∧
+      r.readDataText (out ++ ['\n']) = .ok (canonData r .text data (.str (out ++ ['\n']))) := by
+  obtain ⟨hdel, hd, hnld, hid, hidne, hidhead, hidlast, hidfree, hidnl, hlen, hne, hrl, hlaw, hfree, htnl⟩ := h
+  have hsid : strip (ljust r.ident r.digits ' ') = r.ident := by
+    rw [strip_ljust]; exact strip_ident r hidhead hidlast
+  -- the composite line
+  let F := r.idField :: r.fields
+  let V := Val.str r.ident :: data
+  let RS := ljust r.ident r.digits ' ' :: rs
+  have hlenF : F.length = V.length := by simp [F, V, hlen]
+  have hrlF : RS.length = F.length := by simp [F, RS, hrl]
+  have hr : ∀ i (hi : i < F.length), ∃ t, RS[i]? = some t ∧ renderText F[i] (V[i]'(hlenF ▸ hi)) = .ok t ∧
+      t.length = (F[i]).size := by
+    intro i hi
+    cases i with
+    | zero =>
+      obtain ⟨h1, h2, _⟩ := r.idField_rendersTo hid
+      exact ⟨_, rfl, h1, h2⟩
+    | succ i =>
+      obtain ⟨t, h1, h2, h3, _⟩ := hlaw i (by simpa [F] using hi)
+      exact ⟨t, by simpa [RS] using h1, by simpa [F, V] using h2, by simpa [F] using h3⟩
+  have hw := writeDelim_eq F V RS d hlenF hr hrlF
+  have hmap : RS.map strip = r.ident :: rs.map strip := by simp [RS, hsid]
+  -- data is not empty, so there is at least one data token
+  have hdata : rs ≠ [] := by
+    intro e
+    subst e
+    have : r.fields = [] := List.length_eq_zero_iff.mp (by simpa using hrl.symm)
+    have : data = [] := List.length_eq_zero_iff.mp (by rw [← hlen, this]; rfl)
+    subst this
+    simp [RegDef.isEmpty] at hne
+  have hfreeAll : ∀ u ∈ r.ident :: rs.map strip, ∀ c ∈ u, ¬ c ∈ d := by
+    intro u hu c hc
+    rcases List.mem_cons.mp hu with rfl | hu
+    · exact hidfree c hc
+    · obtain ⟨t, ht, rfl⟩ := List.mem_map.mp hu
+      exact hfree t ht c hc
+  let out := join d (r.ident :: rs.map strip)
+  have hout_nl : ¬ '\n' ∈ out := by
+    intro hm
+    rcases mem_join d _ _ hm with h1 | ⟨u, hu, hc⟩
+    · exact hnld h1
+    · rcases List.mem_cons.mp hu with rfl | hu
+      · exact hidnl hc
+      · obtain ⟨t, ht, rfl⟩ := List.mem_map.mp hu
+        exact htnl t ht hc
+  have hwd : r.writeData .text data = .ok (some (.str (out ++ ['\n']))) := by
+    simp only [RegDef.writeData, hne, Bool.false_eq_true, if_false, RegDef.line, Line.write, hdel]
+    rw [assign_full _ _ (by simp [hlen])]
+    have : writeDelim (r.idField :: r.fields) (Val.str r.ident :: data) d =
+        .ok (join d (RS.map strip) ++ ['\n']) := hw
+    rw [this, hmap]
+    rfl
+  -- the tokens of the written line
+  have htoks : (split (out ++ ['\n']) d).map strip = r.ident :: rs.map strip := by
+    have := tokens_of_joined d (r.ident :: rs.map strip) hd hnld (by simp) hfreeAll
+    rw [this]
+    simp [strip_ident r hidhead hidlast, strip_idem]
+  have hhead : (split (out ++ ['\n']) d).head? = some r.ident := by
+    -- split the token list into init ++ [last]
+    cases hrev : (rs.map strip).reverse with
+    | nil => simp at hrev; exact absurd hrev hdata
+    | cons l ini =>
+      have hrs : rs.map strip = ini.reverse ++ [l] := by
+        have := congrArg List.reverse hrev; simpa using this
+      have hall : r.ident :: rs.map strip = (r.ident :: ini.reverse) ++ [l] := by rw [hrs]; rfl
+      show (split (join d (r.ident :: rs.map strip) ++ ['\n']) d).head? = some r.ident
+      rw [hall, split_joined_line d _ _ hd hnld (by rw [← hall]; exact hfreeAll)]
+      rfl
+  refine ⟨out, hwd, hout_nl, ?_, ?_, ?_⟩
+  · simp only [shapeOk, hdel, List.getLast?_append, List.getLast?_singleton, Option.some_or, beq_self_eq_true,
+      List.dropLast_concat, Bool.true_and, Bool.and_eq_true, Bool.not_eq_true', beq_iff_eq]
+    exact ⟨by simpa using hout_nl, hhead⟩
+  · -- the identifier is the beginning of the line
+    obtain ⟨t2, ts, hts⟩ : ∃ t2 ts, rs.map strip = t2 :: ts := by
+      cases hm : rs.map strip with
+      | nil => simp at hm; exact absurd hm hdata
+      | cons t2 ts => exact ⟨t2, ts, rfl⟩
+    have hstart : out ++ ['\n'] = r.ident ++ (d ++ join d (t2 :: ts) ++ ['\n']) := by
+      show join d (r.ident :: rs.map strip) ++ ['\n'] = _
+      rw [hts, join_cons_ne _ _ _ (by simp)]
+      simp [List.append_assoc]
+    simp only [RegDef.matchesText, hstart, List.take_append]
+    rw [List.take_of_length_le (by omega)]
+    exact isInfix_append_self _ _
+  · have hde : d.isEmpty = false := by
+      cases d with
+      | nil => exact absurd rfl hd
+      | cons _ _ => rfl
+    have hrd : readDelim (r.idField :: r.fields) (out ++ ['\n']) d =
+        readDelim.go (r.idField :: r.fields) (r.ident :: rs.map strip) :=
+      readDelim_of_tokens _ _ _ _ htoks
+    simp only [RegDef.readDataText, RegDef.line, Line.read, hdel, hde, Bool.false_eq_true, if_false, Except.map,
+      hrd, readDelim.go, List.tail_cons, canonData, htoks, List.drop_one]
+    rw [go_canon r.fields data rs hlen hrl hlaw]
+    rfl
+
+end Props.C10
+
+namespace Props.C10
+open Cfi Cfi.Text Spec.C10 Props.C11
+
+/-- **C10, delimited text storage, for every stream of registers**: each register
+is one line, its identifier is the first token, it is recognised by its own type,
+reads back token by token to the canonical data, and every `readline()` ends
+exactly where the corresponding write ended. -/
+theorem text_delimited (items : List (RegDef × List Val))
+    (h : ∀ item ∈ items, ∃ d rs, ItemDelim item.1 item.2 d rs) :
+    ∃ obs, run .text items = some obs ∧ Spec.C10.holds .text items obs = true :=
+  text_stream items (fun item hi => by
+    obtain ⟨d, rs, hd⟩ := h item hi
+    exact item_delim item.1 item.2 d rs hd)
+
+/-- positional and delimited registers may be mixed in one text stream -/
+theorem text_mixed (items : List (RegDef × List Val))
+    (h : ∀ item ∈ items, ItemText item.1 item.2 ∨ ∃ d rs, ItemDelim item.1 item.2 d rs) :
+    ∃ obs, run .text items = some obs ∧ Spec.C10.holds .text items obs = true :=
+  text_stream items (fun item hi => by
+    rcases h item hi with h1 | ⟨d, rs, hd⟩
+    · exact item_text item.1 item.2 h1
+    · exact item_delim item.1 item.2 d rs hd)
+
+/-- non-vacuity: one positional, one binary and one delimited register -/
+example :
+    let r : RegDef := ⟨"AB".toList, 3, [Field.mk' .int 4 3], .none⟩
+    let rd : RegDef := ⟨"AB".toList, 3, [Field.mk' .int 4 3], .str [';']⟩
+    ((run .text [(r, [.int 7]), (r, [.int (-1)])]).map
+        (Spec.C10.holds .text [(r, [.int 7]), (r, [.int (-1)])]) = some true) ∧
+    ((run .text [(rd, [.int 7])]).map (Spec.C10.holds .text [(rd, [.int 7])]) = some true) ∧
+    ((run .binary [(r, [.int 7]), (r, [.int 9])]).map
+        (Spec.C10.holds .binary [(r, [.int 7]), (r, [.int 9])]) = some true) := by
+  decide +kernel
 
 end Props.C10
